@@ -303,6 +303,9 @@ def bfs_histories(step: StepFn, alphabet: Sequence[Any], depth: int, stats: Stat
             stats.transitions += trans
             d = digest(canon)
             lvl_set.add(d)
+            if isinstance(canon, tuple) and canon and canon[0] == "fallback":
+                # the library's private layout is not the one the precise canonical form knows (mc/introspect.py)
+                stats.notes["canonical_form_fallbacks"] = stats.notes.get("canonical_form_fallbacks", 0) + 1
             if verdict is not None:
                 viol_here += 1
                 stats.violations.append(Violation(verdict["what"], dict(verdict.get("replay", {}), scenario=scenario,
